@@ -8,6 +8,15 @@ def parseIntList (s : String) : Option (List Int) :=
 /-- `n` = nil slice, `i` = single index (`ss`), `s:e` (step 1), `s:e:st` -/
 def parseSl (s : String) : Option (Option Sl) :=
   if s == "n" then some none else
+  -- `S…`: the slice is built with the library's constructor `S(start, opt...)` (`slice.go`): end defaults to
+  -- start+1; the step is the third argument when given, else 0 for a one-element range and 1 otherwise
+  if s.startsWith "S" then
+    match ((s.drop 1).toString.splitOn ":").mapM String.toInt? with
+    | some [i] => some (some ⟨i, i + 1, 0⟩)
+    | some [a, b] => some (some ⟨a, b, if b == a + 1 then 0 else 1⟩)
+    | some [a, b, c] => some (some ⟨a, b, c⟩)
+    | _ => none
+  else
   match (s.splitOn ":").mapM String.toInt? with
   | some [i] => some (some ⟨i, i + 1, 0⟩)
   | some [a, b] => some (some ⟨a, b, 1⟩)
